@@ -401,7 +401,9 @@ def h_from_field(sx, cfg):
             centre = tlo + (F(2 * idx[a] + 1) / 2) * (thi - tlo) / tgt_n[a]
             sc = (shi - slo) / src_n[a]
             q = (centre - slo) / sc
-            ja = [int(q // 1)] if q % 1 != 0 else [int(q) - 1, int(q)]
+            # a centre within 1e-9 cells of a source face may resolve to either neighbour (float geometry)
+            near = round(q)
+            ja = [int(q // 1)] if abs(q - near) > F(1, 10**9) else [int(near) - 1, int(near)]
             ja = [j for j in ja if 0 <= j < src_n[a]]
             cands = [[j] for j in ja] if cands is None else [c + [j] for c in cands for j in ja]
         for k in range(nv):
